@@ -834,10 +834,10 @@ theorem opsS_of_ok {c : Nat} {s : PStmt} (h : OkS c s) : opsS s = true := by
   | brk => simp [opsS]
   | cont => simp [opsS]
   | block _ ih => simp only [opsS]; exact opsSs_of_all _ ih
-  | ifb hc _ _ ih1 ih2 => simp [opsS, opsE_of_ok hc, ih1, ih2]
-  | loop hc _ _ ih1 ih2 => simp [opsS, opsE_of_ok hc, ih1, ih2]
-  | tryb _ _ _ ih1 ih2 => simp [opsS, ih1, ih2]
-  | preempt _ _ ih => simpa [opsS] using ih
+  | ifb hc _ _ _ _ ih1 ih2 => simp [opsS, opsE_of_ok hc, ih1, ih2]
+  | loop hc _ _ _ _ ih1 ih2 => simp [opsS, opsE_of_ok hc, ih1, ih2]
+  | tryb _ _ _ _ _ ih1 ih2 => simp [opsS, ih1, ih2]
+  | preempt _ _ _ ih => simpa [opsS] using ih
 
 /-- **The typechecker model never reports an internal error on a program the parser accepted**: the operator classes
 it dispatches on are the grammar's, a compound assignment is arithmetic, and the two assertions at the end of
